@@ -122,6 +122,24 @@ def run (lines : Array String) : Driver.Report := Id.run do
       r := r.bump ("meta_" ++ m)
       if impl = "accept" && !(c = "1" && h = "1") then
         r := r.addMonitor "metadata_bound" n line "metadata accepted although chain id / block hash differ from the commit's"
+    | ["quorum", "fetchmeta", hm, vs, ss, c, h] =>
+      match parseVals vs, parseSigs ss with
+      | some vals, some sigs =>
+        let q := match ensureQuorum sigOk (hm = "1") vals sigs with | .ok () => true | .error _ => false
+        let m := if acceptMetadata q (c = "1") (h = "1") then "accept" else "drop"
+        r := r.check n line impl m
+        r := r.bump ("fetchmeta_" ++ m)
+        if impl = "accept" then
+          let S := validSigners vals sigs
+          let total := (vals.map (·.power)).sum
+          if !(c = "1" && h = "1") then
+            r := r.addMonitor "metadata_bound" n line "metadata accepted although chain id / block hash differ from the commit's"
+          if !(hm = "1") || !(3 * powerOfSet vals S > 2 * total) then
+            r := r.addMonitor "quorum_sound" n line
+              s!"metadata accepted: distinct valid signers of the fetched commit hold {powerOfSet vals S} of {total}"
+        else if impl ≠ "drop" then
+          r := r.addMonitor "quorum_sound" n line s!"metadata verification did not return: {impl}"
+      | _, _ => r := r.addDisagree n line "bad-op"
     | ["quorum", "proposal", height, rm, keys, last, ext] =>
       match height.toNat?, parseKeys keys, parseLast last, parseExt ext with
       | some hgt, some ks, some ls, some es =>
